@@ -123,10 +123,71 @@ type GenOpts struct {
 	MaxPts   int
 	MaxDepth int  // nesting depth of collections
 	TopNil   bool // allow nil interface / typed nil slices at top level
+	InnerNil bool // nil slices as MEMBERS (nil ring / line / polygon, typed-nil collection members); serialise with gsN
+}
+
+// innerNilify replaces some empty-able members of g by nil slices (in place for slices of slices).
+func innerNilify(r *rand.Rand, g orb.Geometry) orb.Geometry {
+	hit := func() bool { return r.Intn(6) == 0 }
+	switch g := g.(type) {
+	case orb.MultiLineString:
+		for i := range g {
+			if hit() {
+				g[i] = nil
+			}
+		}
+	case orb.Polygon:
+		for i := range g {
+			if hit() {
+				g[i] = nil
+			}
+		}
+	case orb.MultiPolygon:
+		for i := range g {
+			if hit() {
+				g[i] = nil
+			} else {
+				for j := range g[i] {
+					if hit() {
+						g[i][j] = nil
+					}
+				}
+			}
+		}
+	case orb.Collection:
+		for i := range g {
+			if hit() {
+				switch r.Intn(7) {
+				case 0:
+					g[i] = orb.MultiPoint(nil)
+				case 1:
+					g[i] = orb.LineString(nil)
+				case 2:
+					g[i] = orb.MultiLineString(nil)
+				case 3:
+					g[i] = orb.Ring(nil)
+				case 4:
+					g[i] = orb.Polygon(nil)
+				case 5:
+					g[i] = orb.MultiPolygon(nil)
+				default:
+					g[i] = orb.Collection(nil)
+				}
+			} else {
+				g[i] = innerNilify(r, g[i])
+			}
+		}
+	}
+	return g
 }
 
 // genGeom draws a geometry of any of the nine kinds (no nil members below the top level).
 func genGeom(r *rand.Rand, o GenOpts, depth int) orb.Geometry {
+	if depth == 0 && o.InnerNil && r.Intn(4) == 0 {
+		o2 := o
+		o2.InnerNil = false
+		return innerNilify(r, genGeom(r, o2, 0))
+	}
 	if depth == 0 && o.TopNil && r.Intn(12) == 0 {
 		switch r.Intn(8) {
 		case 0:
